@@ -313,17 +313,23 @@ def mapJsonItem (e : SEnv) (name : Str) (x : JVal) : Except String (List Cls) :=
     | none => .error "IndexError"
   | _ => .error "AttributeError"
 
+def JVal.isDict : JVal → Bool
+  | .dict _ => true
+  | _ => false
+
 /-- `ResourceTransformer.process_json_documents` for one loaded document: an object is mapped, an
-array is mapped item by item (`if isinstance(data, dict): data = [data]`, `for obj in data`).
-`error` = the exception that leaks (only `ValueError` is caught there): a number / boolean / null
-cannot be iterated, a string is iterated character by character. -/
+array of objects is mapped item by item (`if isinstance(data, dict): data = [data]`, `for obj in
+data`); anything else — a number, a string, null, an array with an item that is no object — is
+refused up front with `CodegenError`. -/
 def mapJsonDoc (e : SEnv) (doc : JVal) (name : Str) : Except String (List Cls) :=
   match doc with
   | .dict kvs => mapJsonItem e name (.dict kvs)
-  | .list xs => match xs.mapM (mapJsonItem e name) with
-    | .ok css => .ok css.flatten
-    | .error k => .error k
-  | .scalar (.str s) => if s.isEmpty then .ok [] else .error "AttributeError"
-  | .scalar _ => .error "TypeError"
+  | .list xs =>
+    if xs.all JVal.isDict then
+      match xs.mapM (mapJsonItem e name) with
+      | .ok css => .ok css.flatten
+      | .error k => .error k
+    else .error "CodegenError"
+  | .scalar _ => .error "CodegenError"
 
 end Xs.Samples
